@@ -1,16 +1,25 @@
 (* C11 — A filter matches exactly the conjunction of its criteria, via every front-end.
-   Statements only; proofs are in Filter/MatchProofs.v and Filter/FrontendsProofs.v.
-   [re] is the regular-expression oracle (Filter/Match.v); nothing is assumed about it. *)
+   Statements only; proofs are in Filter/MatchProofs.v, Filter/FrontendsProofs.v, Filter/FrontendsRoundtrip.v.
+
+   Model: Filter/Match.v (`Filter::matches`, early returns) and Filter/Frontends.v (`from_json` after serde_json,
+   `from_quick_xml_reader` after the element map, `filters_from_convert_format`, `EacFilter::from_str`, `to_json`).
+   [re : engine -> pattern -> text -> bool] is the regular-expression oracle (is_match of the three engines),
+   [valid : engine -> pattern -> bool] says whether a pattern compiles.  Nothing is assumed about either.
+   The abstract filter of the property text, its meaning [aspec] and its renderings are in Filter/FrontendsSpec.v. *)
 From Coq Require Import List NArith Bool.
-From AdltV Require Import Filter.Match Filter.MatchProofs.
+From AdltV Require Import Filter.Match Filter.MatchProofs Filter.Frontends Filter.FrontendsSpec
+  Filter.FrontendsProofs Filter.FrontendsRoundtrip.
 Import ListNotations.
 Open Scope N_scope.
 
 Section Statements.
   Variable re : engine -> pattern -> text -> bool.
+  Variable valid : engine -> pattern -> bool.
 
   (* `Filter::matches` (early returns) = enabled && (negate xor every specified criterion holds);
-     the criteria are spelled out once in [criteria_hold] (Filter/Match.v, "specification") *)
+     the criteria are spelled out once in [criteria_hold] (Filter/Match.v, "specification"):
+     ids by 4-byte equality or regex, type under mask, level bounds for log messages only, payload by regex /
+     case-insensitive literal / substring, lifecycle membership with the empty list = no criterion *)
   Theorem C11_matches_spec f m :
     matches re f m = f_enabled f && xorb (f_negate f) (criteria_hold re f m).
   Proof. exact (matches_is_spec re f m). Qed.
@@ -20,7 +29,136 @@ Section Statements.
     m_ext m = None -> needs_ext_header f = true ->
     criteria_hold re f m = false /\ matches re f m = f_enabled f && f_negate f.
   Proof. intros He Hn. split; [exact (no_ext_criteria_fail re f m He Hn)|exact (no_ext_matches re f m He Hn)]. Qed.
+
+  (* the literal payload criterion is "the text can be cut into  before ++ literal ++ after" *)
+  Theorem C11_substring_spec s t : substr s t = true <-> exists before after, t = before ++ s ++ after.
+  Proof. exact (substr_spec s t). Qed.
+
+  (* every front-end that can express the abstract filter [a] builds the very same Filter from it
+     ([verbose]: optional members written or left out; [sep1] [sep2]: the separator bytes of the list format) *)
+  Theorem C11_frontends_load_same_filter a verbose sep1 sep2 :
+    awf valid a = true ->
+    from_json_kv valid (render_json verbose a) = Some (filter_of a) /\
+    (dlf_expressible a = true -> from_dlf_attrs valid (render_dlf verbose a) = filter_of a) /\
+    (conv_expressible a = true -> from_convert_format (render_conv sep1 sep2 a) = [filter_of a]) /\
+    (eac_expressible a = true -> eac_from_str valid (render_eac a) = Some (filter_of a)).
+  Proof.
+    intros Hwf. split; [exact (json_loads valid verbose a Hwf)|].
+    split; [exact (dlf_loads valid verbose a Hwf)|].
+    split; [exact (conv_loads sep1 sep2 a)|exact (eac_loads valid a Hwf)].
+  Qed.
+
+  (* ... and that Filter decides as the property text says: the same abstract filter decides identically, and as
+     [aspec], through JSON, DLF, the dlt-convert list and the ECU:APID:CTID expression *)
+  Theorem C11_frontends_agree a m verbose sep1 sep2 :
+    awf valid a = true -> msg_wf m = true ->
+    (exists f, from_json_kv valid (render_json verbose a) = Some f /\ matches re f m = aspec re a m) /\
+    (dlf_expressible a = true -> matches re (from_dlf_attrs valid (render_dlf verbose a)) m = aspec re a m) /\
+    (conv_expressible a = true ->
+     map (fun f => matches re f m) (from_convert_format (render_conv sep1 sep2 a)) = [aspec re a m]) /\
+    (eac_expressible a = true ->
+     exists f, eac_from_str valid (render_eac a) = Some f /\ matches re f m = aspec re a m).
+  Proof.
+    intros Hwf Hm. pose proof (filter_of_meaning re valid a m Hwf Hm) as M.
+    destruct (C11_frontends_load_same_filter a verbose sep1 sep2 Hwf) as (Hj & Hd & Hc & He).
+    split; [exists (filter_of a); split; [exact Hj|exact M]|].
+    split; [intros H; rewrite (Hd H); exact M|].
+    split; [intros H; rewrite (Hc H); cbn [map]; rewrite M; reflexivity|].
+    intros H. exists (filter_of a). split; [exact (He H)|exact M].
+  Qed.
+
+  (* the readable meaning of the type criterion agrees with "value under mask" on bytes *)
+  Theorem C11_type_under_mask t v :
+    atype_wf t = true -> v < 256 -> type_holds (atype_vm t) v = atype_holds t v.
+  Proof.
+    intros Ht Hv. destruct t as [x|w]; cbn [atype_wf atype_holds] in *; apply N.ltb_lt in Ht.
+    - exact (type_mstp_readable x v Ht Hv).
+    - exact (type_vmm_readable w v Ht Hv).
+  Qed.
+
+  (* a filter that came out of any of the four loaders, with printable-ASCII literal ids, is reproduced exactly by
+     to_json followed by from_json — in particular it decides identically *)
+  Theorem C11_json_roundtrip f :
+    loaded valid f -> ids_printable f ->
+    exists f', from_json_kv valid (JObject (to_json_kv f)) = Some f' /\ f' = f /\
+               forall m, matches re f' m = matches re f m.
+  Proof.
+    intros Hl Hp. exists f. split; [|split; [reflexivity|intros m; reflexivity]].
+    exact (json_roundtrip_eq valid f (loaded_has_shape valid f Hl) Hp).
+  Qed.
+
+  (* the same for any filter of the loaded shape (value/mask pairs JSON can express, compiled patterns, cached
+     case-insensitive literal consistent with the flag) *)
+  Theorem C11_json_roundtrip_shape f :
+    loaded_shape valid f -> ids_printable f -> from_json_kv valid (JObject (to_json_kv f)) = Some f.
+  Proof. exact (json_roundtrip_eq valid f). Qed.
 End Statements.
+
+(* ---------------------------------------------------------------- non-vacuity and kept witnesses *)
+Definition ex_valid : engine -> pattern -> bool := fun _ _ => true.
+Definition ex_re : engine -> pattern -> text -> bool := fun _ p t => substr p t.
+
+(* apid "AP", ctid "CTID": expressible in all four formats *)
+Definition ex_ids : afilter :=
+  {| a_kind := 0; a_enabled := true; a_negate := false; a_ecu := None;
+     a_apid := Some {| ai_s := [65; 80]; ai_regex := false |};
+     a_ctid := Some {| ai_s := [67; 84; 73; 68]; ai_regex := false |};
+     a_type := None; a_lmin := None; a_lmax := None; a_payload := None; a_lcs := None |}.
+(* every kind of criterion at once (JSON only: negated, lifecycles, full type byte) *)
+Definition ex_all : afilter :=
+  {| a_kind := 1; a_enabled := true; a_negate := true;
+     a_ecu := Some {| ai_s := [69; 67; 85]; ai_regex := true |};
+     a_apid := Some {| ai_s := [65; 80]; ai_regex := false |};
+     a_ctid := Some {| ai_s := [67; 84; 73; 68; 88]; ai_regex := false |};
+     a_type := Some (AVmm 65); a_lmin := Some 2; a_lmax := Some 5;
+     a_payload := Some {| ap_s := [102; 111; 111]; ap_regex := false; ap_ic := false |};
+     a_lcs := Some [1; 2] |}.
+Definition ex_msg (vmm lc : N) (with_ext : bool) : msg :=
+  {| m_ecu := (69, 67, 85, 49);
+     m_ext := if with_ext then Some {| e_vmm := vmm; e_apid := (65, 80, 0, 0); e_ctid := (67, 84, 73, 68) |} else None;
+     m_text := Some [97; 32; 102; 111; 111]; m_lc := lc |}.
+
+Example C11_nonvacuous :
+  awf ex_valid ex_ids = true /\ dlf_expressible ex_ids = true /\ conv_expressible ex_ids = true /\
+  eac_expressible ex_ids = true /\
+  aspec ex_re ex_ids (ex_msg 65 0 true) = true /\ aspec ex_re ex_ids (ex_msg 65 0 false) = false /\
+  awf ex_valid ex_all = true /\ msg_wf (ex_msg 65 2 true) = true /\
+  (* all criteria hold -> the negated filter does not match; one criterion fails -> it matches *)
+  acriteria_hold ex_re ex_all (ex_msg 65 2 true) = true /\ aspec ex_re ex_all (ex_msg 65 2 true) = false /\
+  aspec ex_re ex_all (ex_msg 65 3 true) = true /\ aspec ex_re ex_all (ex_msg 97 2 true) = true /\
+  aspec ex_re ex_all (ex_msg 65 2 false) = true /\
+  loaded ex_valid (filter_of ex_all) /\ ids_printable (filter_of ex_all).
+Proof.
+  repeat (split; [vm_compute; reflexivity|]).
+  split.
+  - left. exists (render_json true ex_all). apply json_loads. vm_compute. reflexivity.
+  - vm_compute. repeat split.
+Qed.
+
+(* DESIGN Appendix A, C11-1: {"type":0,"mstp":3} is written back with its message-type criterion
+   (to_json used to drop it, so the reloaded filter matched every message) *)
+Example C11_witness_mstp_is_serialised :
+  exists f, from_json_kv ex_valid (JObject [(KType, JNum 0); (KMstp, JNum 3)]) = Some f /\
+            f_vmm f = Some (6, 14) /\
+            to_json_kv f = [(KType, JNum 0); (KMstp, JNum 3)] /\
+            from_json_kv ex_valid (JObject (to_json_kv f)) = Some f.
+Proof. eexists. split; [vm_compute; reflexivity|]. repeat split. Qed.
+
+(* C11-2: a DLF literal payload without ignoreCase_Payload is matched by substring, not by the
+   case-insensitive engine (the DLF loader used to build the case-insensitive regex unconditionally) *)
+Example C11_witness_dlf_literal_case_sensitive :
+  let f := from_dlf_attrs ex_valid [(DEnableFilter, [49]); (DEnablePayloadText, [49]); (DPayloadText, [102; 111; 111])] in
+  f_payload_as_regex f = None /\ payload_crit f = Some (PLiteral [102; 111; 111]).
+Proof. vm_compute. split; reflexivity. Qed.
 
 Print Assumptions C11_matches_spec.
 Print Assumptions C11_no_ext_header_fails_id_type_level.
+Print Assumptions C11_substring_spec.
+Print Assumptions C11_frontends_load_same_filter.
+Print Assumptions C11_frontends_agree.
+Print Assumptions C11_type_under_mask.
+Print Assumptions C11_json_roundtrip.
+Print Assumptions C11_json_roundtrip_shape.
+Print Assumptions C11_nonvacuous.
+Print Assumptions C11_witness_mstp_is_serialised.
+Print Assumptions C11_witness_dlf_literal_case_sensitive.
